@@ -19,11 +19,28 @@ def gen(x):
     w.append("def mdsdrv_pitch_node_max : Nat := %s  -- ... * 256" % m.group(3))
     w.append("def mdsdrv_msg_pitch_too_long : String := %s" % lean_str(m.group(4)))
     # add_pitch_envelope / add_extended_pitch_envelope: the loop position must fit its byte (both sites, same text)
-    ms = re.findall(r'if\(loop_pos > (\d+)\)\s*throw InputError\(nullptr, stringf\("([^"%]*)%d([^"%]*)", id\)\.c_str\(\)\);', c)
+    loop_check = r'if\(loop_pos > (\d+)\)\s*throw InputError\(nullptr, stringf\("([^"%]*)%d([^"%]*)", id\)\.c_str\(\)\);'
+    ms = re.findall(loop_check + r'\s*(env_data\.push_back\(0x7f\);\s*env_data\.push_back\(loop_pos\);|env_data\.back\(\) = loop_pos;)', c)
+    ms = [m[:3] for m in ms]
     if len(ms) != 2 or ms[0] != ms[1]:
         raise x.ShapeError("mdsdrv.cpp:pitch envelope loop position check (compact and extended)")
     w.append("def mdsdrv_pitch_loop_max : Nat := %s  -- mdsdrv.cpp if(loop_pos > 255)" % ms[0][0])
     w.append("def mdsdrv_msg_pitch_loop : String × String := (%s, %s)  -- around %%d = id" % (lean_str(ms[0][1]), lean_str(ms[0][2])))
+    # add_ins_psg: the loop position must fit its byte; the check sits in the loop branch of the end command, in front of the
+    # two push_backs (ff36345)
+    m = x.need(re.search(r'if\(loop_pos == -1\)\s*\{\s*env_data\.push_back\(0x00\);\s*\}\s*else\s*\{\s*' + loop_check +
+                         r'\s*env_data\.push_back\(0x02\);\s*env_data\.push_back\(loop_pos\);', c),
+               "mdsdrv.cpp:add_ins_psg loop position check")
+    w.append("def mdsdrv_psg_loop_max : Nat := %s  -- mdsdrv.cpp add_ins_psg if(loop_pos > 255)" % m.group(1))
+    w.append("def mdsdrv_msg_psg_loop : String × String := (%s, %s)  -- around %%d = id" % (lean_str(m.group(2)), lean_str(m.group(3))))
+    # add_pitch_node: the step per frame must fit int16_t; the check sits between the computation of env_initial and the
+    # narrowing of the step (f788cbf), i.e. before the invalid_argument test and before any push_back of the iteration
+    m = x.need(re.search(r'int16_t env_initial = counter \* 256;\s*double step = std::trunc\(delta \* 256\);\s*'
+                         r'if\(!\(step >= (-?\d+) && step <= (\d+)\)\)\s*throw InputError\(nullptr, "([^"]*)"\);\s*int16_t env_delta = step;', c),
+               "mdsdrv.cpp:add_pitch_node step range check")
+    w.append("def mdsdrv_pitch_step_min : Int := %s  -- mdsdrv.cpp add_pitch_node if(!(step >= -32768 && step <= 32767))" % m.group(1))
+    w.append("def mdsdrv_pitch_step_max : Int := %s" % m.group(2))
+    w.append("def mdsdrv_msg_pitch_step : String := %s" % lean_str(m.group(3)))
     # add_instrument: empty tag
     m = x.need(re.search(r'if\(tag\.empty\(\)\)\s*throw InputError\(nullptr, stringf\("([^"%]*)%d([^"%]*)", id\)\.c_str\(\)\);\s*auto it = tag\.begin\(\);', c),
                "mdsdrv.cpp:add_instrument empty tag")
